@@ -62,7 +62,7 @@ func buildTree(fsys hackpadfs.FS, items []treeItem) error {
 }
 
 // readOnlySubjects are the FS kinds a populated tree can be presented through.
-var populatedSubjects = []string{"mem", "kvplain", "mount", "sub", "cache", "cache-min", "tar", "tar-min", "os", "mount-deep"}
+var populatedSubjects = []string{"mem", "kvplain", "mount", "sub", "cache", "cache-min", "tar", "tar-min", "os", "mount-deep", "sub-above-mount"}
 
 type populated struct {
 	name    string
@@ -106,7 +106,9 @@ func newPopulated(env *core.Env, name string, items []treeItem) (*populated, err
 		}
 		p.fs, p.writable = v, true
 		return p, buildTree(v, items)
-	case "mount":
+	case "mount", "sub-above-mount":
+		// "sub-above-mount": the same tree below top/ of the mount FS, seen through a Sub view of top (the view's
+		// directory lies ABOVE the mount points)
 		root, err := mem.NewFS()
 		if err != nil {
 			return nil, err
@@ -115,26 +117,46 @@ func newPopulated(env *core.Env, name string, items []treeItem) (*populated, err
 		if err != nil {
 			return nil, err
 		}
+		pre := ""
+		if name == "sub-above-mount" {
+			pre = "top/"
+			if err := hackpadfs.Mkdir(mfs, "top", 0o755); err != nil {
+				return nil, err
+			}
+		}
 		for _, it := range items {
 			if it.Dir && isMountName(it.Path) {
-				if err := hackpadfs.MkdirAll(mfs, it.Path, hackpadfs.FileMode(it.Perm)); err != nil {
+				if err := hackpadfs.MkdirAll(mfs, pre+it.Path, hackpadfs.FileMode(it.Perm)); err != nil {
 					return nil, err
 				}
 				sub, err := mem.NewFS()
 				if err != nil {
 					return nil, err
 				}
-				if err := mfs.AddMount(it.Path, sub); err != nil {
+				// what is mounted is not empty: the directory below a mount point must show THIS, not what it hides
+				if err := hackpadfs.WriteFullFile(sub, "in-mount", []byte("mounted"), 0o644); err != nil {
+					return nil, err
+				}
+				if err := mfs.AddMount(pre+it.Path, sub); err != nil {
 					return nil, err
 				}
 				p.mountPoints[it.Path] = true
 				continue
 			}
-			if err := buildTree(mfs, []treeItem{it}); err != nil {
+			it2 := it
+			it2.Path = pre + it.Path
+			if err := buildTree(mfs, []treeItem{it2}); err != nil {
 				return nil, err
 			}
 		}
 		p.fs, p.writable = mfs, true
+		if name == "sub-above-mount" {
+			v, err := hackpadfs.Sub(mfs, "top")
+			if err != nil {
+				return nil, err
+			}
+			p.fs = v
+		}
 		return p, nil
 	case "mount-deep":
 		// everything lives in a file system mounted at a two-element mount point whose letters also start the names below
